@@ -18,8 +18,11 @@ CONSTANTS RootCat,    \* category of the top-level list items
                       \* (long lists: slices that outgrow their first capacity, separator lists of 4 .. 9 tokens)
           Glue,       \* {} or a set of variant ids ("self-nesting" mode): besides the glue variants a derivation uses ONE other
                       \* variant only, any number of times - a construct nested in itself through brackets, arguments, blocks
+          FocusFamily, \* {} or a set of variant ids that together count as "the one other variant" of the self-nesting mode (e.g. all
+                      \* forms of if / elseif / else: every mix of them nested in each other)
           Wrappers    \* the glue variants through which a construct can contain itself; the other glue variants are closers: the
-                      \* cheapest way to finish a category; closers do not count against MaxChoices in this mode
+                      \* cheapest way to finish a category; closers do not count against MaxChoices in this mode and their
+                      \* own lists are as short as they can be
 
 VARIABLES todo, choices, done
 gvars == <<todo, choices, done>>
@@ -85,8 +88,10 @@ GInit == /\ done = FALSE
 
 GlueIdx == {v \in 1 .. NV : Variants[v].id \in Glue}
 \* self-nesting mode: v is glue, or the one other variant of this derivation
+FamilyIdx == {v \in 1 .. NV : Variants[v].id \in FocusFamily}
 FocusOK(v) == \/ Glue = {} \/ v \in GlueIdx
-              \/ (VItems[v] # <<>> /\ \A i \in 2 .. Len(choices) : choices[i][1] \in GlueIdx \/ choices[i][1] = v)
+              \/ (FocusFamily # {} /\ v \in FamilyIdx)
+              \/ (FocusFamily = {} /\ VItems[v] # <<>> /\ \A i \in 2 .. Len(choices) : choices[i][1] \in GlueIdx \/ choices[i][1] = v)
 CloserIdx == {v \in GlueIdx : Variants[v].id \notin Wrappers}
 Weight == Cardinality({i \in 2 .. Len(choices) : choices[i][1] \notin CloserIdx})
 CandsF(h) == IF Glue = {} THEN Cands(h) ELSE {v \in Cands(h) : FocusOK(v) /\ (v \in CloserIdx \/ Weight < MaxChoices)}
@@ -110,8 +115,8 @@ Expand == /\ todo # <<>> /\ ~done
              /\ CandsF(h) # {}
              /\ IF Random
                 THEN \E v \in {PickOne(CandsF(h))} :                          \* sampling (-simulate): one successor per step
-                       \E lens \in {RandomElement(IF Glue # {} /\ h.d > 0 THEN LensShort[v] ELSE LensTab[v][h.d = 0])} : Apply(h, v, lens)
-                ELSE \E v \in CandsF(h) : \E lens \in (IF Glue # {} /\ h.d > 0 THEN LensShort[v] ELSE LensTab[v][h.d = 0]) : Apply(h, v, lens)
+                       \E lens \in {RandomElement(IF Glue # {} /\ v \in CloserIdx THEN LensTab[v][TRUE] ELSE IF Glue # {} /\ h.d > 0 THEN LensShort[v] ELSE LensTab[v][h.d = 0])} : Apply(h, v, lens)
+                ELSE \E v \in CandsF(h) : \E lens \in (IF Glue # {} /\ v \in CloserIdx THEN LensTab[v][TRUE] ELSE IF Glue # {} /\ h.d > 0 THEN LensShort[v] ELSE LensTab[v][h.d = 0]) : Apply(h, v, lens)
           /\ UNCHANGED done
 
 Finish == /\ todo = <<>> /\ ~done
